@@ -52,6 +52,10 @@ func genPES(t *rapid.T, maxData int) ref.PES {
 		p.CopyInfo = rapid.Bool().Draw(t, "copyinfo")
 		p.CRC = rapid.Bool().Draw(t, "crc")
 		p.Ext = rapid.Bool().Draw(t, "ext")
+		if p.Ext && rapid.Bool().Draw(t, "ext-tref") {
+			v := genBits(t, 33, "tref")
+			p.TREF = &v
+		}
 	}
 	p.OptFill = 0xFF // the flag-driven optional fields carry marker bits: all ones keeps every one of them set
 	needed := p.HeaderDataLength()
@@ -65,6 +69,10 @@ func genPES(t *rapid.T, maxData int) ref.PES {
 	}
 	minData := 0 // "any payload": also none at all (a six-byte PES packet for the ids without optional header)
 	p.Data = genBytes(t, minData, maxData, "data")
+	if len(p.Data) >= 6 && rapid.IntRange(0, 3).Draw(t, "data-shape") == 0 {
+		// elementary stream data that starts the way video access units do (start code + AVC / HEVC access unit delimiter)
+		copy(p.Data, rapid.SampledFrom([][]byte{{0, 0, 0, 1, 0x09, 0xF0}, {0, 0, 0, 1, 0x46, 0x01}, {0, 0, 1, 0x09, 0x10, 0}, {0, 0, 1, 0xB3, 0, 0}}).Draw(t, "data-start"))
+	}
 	return p
 }
 
